@@ -500,6 +500,8 @@ def main():
             os.remove(os.path.join(VERIF, "replays", old))
     # runs against a scratch tree (VERIF_REPO, used for seeded changes) must not overwrite the evidence of /repo
     evdir = os.path.join(VERIF, "evidence") if not os.environ.get("VERIF_REPO") else os.path.join(core.BUILD, "evidence-scratch")
+    if replay:
+        evdir = os.path.join(core.BUILD, "evidence-replay")   # a replay covers one case: it must not replace the evidence of a full run
     os.makedirs(evdir, exist_ok=True)
     exit_code = 0
     lines = []
